@@ -4,7 +4,7 @@ import vf
 SPEC = dict(
     level="proof",
     harness=dict(pkg_dir="cmd/zoekt-webserver/grpc/server", run="TestVerifC24$", files=["grpcserver/zz_verif_c24_test.go"],
-                 n_quick=260, n_thorough=4000),
+                 n_quick=260, n_thorough=2000),
     runner=dict(imports=["From ZV Require Import Lib.Base Lib.WireTypes Model.Wire Model.WireGen."], case_type="wcase",
                 mismatch_fn="c24_mismatches", shard=300),
     extra_targets=["Proofs/Wire.vo", "Proofs/WireGen.vo"],
